@@ -16,7 +16,7 @@ structure Out (α : Type) where
   vec : Vec
   exit : Exit α
   rest : List Outcome
-  deriving Repr
+  deriving Repr, DecidableEq
 
 /-! ## `retain` — `src/bump_box.rs` `BumpBox<[T]>::retain` (l.2273-2378) -/
 
@@ -31,7 +31,7 @@ inductive RetainScan where
   | allKept (o : List Outcome)                  -- `return` at l.2330
   | firstRemoved (read : Nat) (o : List Outcome) -- `break` at l.2325
   | panicked (o : List Outcome)                 -- `f` panicked; no guard exists yet
-  deriving Repr
+  deriving Repr, DecidableEq
 
 /-- first loop (l.2320-2333), `fuel = original_len - read` -/
 def retainScan (v : Vec) : (fuel : Nat) → (read : Nat) → List Outcome → M RetainScan
@@ -88,9 +88,7 @@ def retain (bombs : List Id) (v : Vec) (o : List Outcome) : M (Out Unit) :=
   let origLen := v.len
   if origLen = 0 then .ok ⟨v, .ret (), o⟩
   else
-    match retainScan v origLen 0 o with
-    | .error e => .error e
-    | .ok s => retainAfterScan bombs v origLen s
+    (retainScan v origLen 0 o).bind (retainAfterScan bombs v origLen)
 
 /-! ## `dedup_by` — `BumpBox<[T]>::dedup_by` (l.2538-2640) -/
 
